@@ -153,10 +153,17 @@ def perrStr : PErr → String
   | .linkCall => "linkCall" | .missingSource => "missingSource" | .computeFn => "computeFn"
   | .invalid => "invalid" | .required => "required"
 
+def optsOfJson (j : Json) : List (String × Action) :=
+  (getArr j "opts").map fun x =>
+    match x with
+    | .arr #[.str o, .str d, .str k] => (o, (⟨keyOf d, kindOf k⟩ : Action))
+    | _ => ("", ⟨[], .arg⟩)
+
 def parserJson (p : Parser) : Json :=
   Json.mkObj [
     ("actions", .arr (p.actions.map fun a => Json.arr #[.str (keyStr a.dest), .str (kindStr a.kind)]).toArray),
     ("required", .arr (p.required.map fun k => Json.str (keyStr k)).toArray),
+    ("opts", .arr (p.optActs.map fun oa => Json.arr #[.str oa.1, .str (keyStr oa.2.dest), .str (kindStr oa.2.kind)]).toArray),
     ("links", .arr (p.links.map fun l => Json.arr #[.str (keyStr l.target),
         .str (match l.kind with | .plain => "plain" | .initArg n => "initArg:" ++ keyStr (l.target.take n)),
         .arr (l.sources.map fun s => Json.bool s.sub).toArray]).toArray)]
@@ -193,7 +200,7 @@ partial def treeOfJson (j : Json) : PTree :=
     match c with
     | .arr #[.str n, t] => ((⟨false, n⟩ : SKey), treeOfJson t)
     | _ => (⟨false, ""⟩, default)
-  .node { actions := acts, required := req, links := [] } grp ⟨false, getStr j "dest"⟩ sreq choices
+  .node { actions := acts, required := req, links := [], optActs := optsOfJson j } grp ⟨false, getStr j "dest"⟩ sreq choices
 
 partial def nodeAt : PTree → List SKey → Option PTree
   | t, [] => some t
@@ -216,7 +223,7 @@ def step (st : St) (j : Json) : Json × St :=
       | .arr #[.str d, .str k] => (⟨keyOf d, kindOf k⟩ : Action)
       | _ => ⟨[], .arg⟩
     let req := (getArr j "required").map fun r => match r with | .str s => keyOf s | _ => []
-    let p' : Parser := { actions := acts, required := req, links := [] }
+    let p' : Parser := { actions := acts, required := req, links := [], optActs := optsOfJson j }
     (parserJson p', { st with p := p' })
   | "link" =>
     let srcs := (getArr j "sources").map fun s => match s with | .str s => keyOf s | _ => []
